@@ -29,8 +29,9 @@ MODELLED = ("FFSynchronizer/AsyncFFSynchronizer/ResetSynchronizer/PulseSynchroni
 ASSUMPTIONS = ["the output-domain reset is never asserted (FFSynchronizer flops are reset_less by default)",
                "a value driven by the testbench in the same ctx.set as a clock edge is seen by that edge (simulator semantics; "
                "modelled as the group [Ein v; edge])"]
-SHARD = 200
+SHARD = 400
 
+_HDR = {"ff": 1, "af": 1, "rs": 1, "ps": 3}      # answer = header entries, then the packed trace
 EXC = {"DomainRequirementFailed": 1, "TypeError": 2, "ValueError": 3}
 
 
@@ -345,19 +346,19 @@ def run_impl(c):
         m.submodules.dut = FFSynchronizer(i, o, o_domain="o", init=c["init"], stages=st)
         mon = _FFMon(i, st, Const(c["init"], sh).value)
         out = _drive(m, i, o, cd_o, None, neg, c["ev"], mon)
-        return out + [int(mon.ok)]
+        return [int(mon.ok)] + _pack_out(c, out)
     if k == "af":
         i, o = Signal(init=c["i0"]), Signal()
         m.submodules.dut = AsyncFFSynchronizer(i, o, o_domain="o", stages=st, async_edge="pos" if c["pos"] else "neg")
         mon = _AFMon(i, st, c["pos"])
         out = _drive(m, i, o, cd_o, None, False, c["ev"], mon)
-        return out + [int(mon.ok)]
+        return [int(mon.ok)] + _pack_out(c, out)
     if k == "rs":
         i = Signal(init=c["i0"])
         m.submodules.dut = ResetSynchronizer(i, domain="o", stages=st)
         mon = _AFMon(i, st, True)
         out = _drive(m, i, cd_o.rst, cd_o, None, False, c["ev"], mon)
-        return out + [int(mon.ok)]
+        return [int(mon.ok)] + _pack_out(c, out)
     if k == "ps":
         m.domains.i = cd_i = ClockDomain("i")
         m.submodules.dut = dut = PulseSynchronizer("i", "o", stages=st)
@@ -368,27 +369,69 @@ def run_impl(c):
         # conservation observed on the real component: separated word, flushed -> counts agree
         if _py_separated(c["i0"], c["ev"]) and (mon.edges_since_pulse is None or mon.edges_since_pulse >= st):
             ok = ok and mon.n_in == mon.n_out
-        return out + [mon.n_in, mon.n_out, int(ok)]
+        return [mon.n_in, mon.n_out, int(ok)] + _pack_out(c, out)
     raise ValueError(k)
 
 
 # ------------------------------------------------------------------ model side
-def _groups(steps):
-    return "[" + "; ".join(f"g {kind}" if v is None else f"gv {kind} {z(v)}" for kind, v in steps) + "]"
+def _fmt(c):
+    """(fb, off) of the step codes and (ob, ooff) of the output codes of a case"""
+    if c["k"] == "ff":
+        w = c["w"]
+        return ((2, 1) if c["r"] == "exh" else (7, 64)), (w + 1, 1 << w)
+    return (2, 1), (1, 0)
+
+
+def _chunks(codes, bits):
+    per = 60 // bits
+    out = []
+    for a in range(0, len(codes), per):
+        x = 0
+        for j, cde in enumerate(codes[a:a + per]):
+            assert 0 <= cde < (1 << bits), (cde, bits)
+            x |= cde << (bits * j)
+        out.append(x)
+    return out
+
+
+def _pack_steps(c):
+    """U fb off n chunks: step code = kind + 8 * f on 3+fb bits, f = 0 (not driven) or v + off"""
+    (fb, off), _ = _fmt(c)
+    codes = []
+    for kind, v in c["ev"]:
+        f = 0 if v is None else v + off
+        assert 0 <= f < (1 << fb) and (v is None or f > 0), (v, fb, off)
+        codes.append(kind + 8 * f)
+    return f"(U {fb} {off} {len(codes)}%nat {zlist(_chunks(codes, 3 + fb))})"
+
+
+def _pack_out(c, vals):
+    _, (ob, ooff) = _fmt(c)
+    return _chunks([v + ooff for v in vals], ob)
+
+
+def _unpack_out(c, chunks, n):
+    _, (ob, ooff) = _fmt(c)
+    per = 60 // ob
+    vals = []
+    for x in chunks:
+        for j in range(per):
+            vals.append(((x >> (ob * j)) & ((1 << ob) - 1)) - ooff)
+    return vals[:n]
 
 
 def coq_term(c):
     k = c["k"]
     if k == "ff":
-        return f"k_ff {z(c['w'])} {blit(c['sg'])} {c['st']}%nat {z(c['init'])} {z(c['i0'])} {_groups(c['ev'])}"
+        return f"k_ff {z(c['w'])} {blit(c['sg'])} {c['st']}%nat {z(c['init'])} {z(c['i0'])} {_pack_steps(c)}"
     if k == "af":
-        return f"k_af {blit(c['pos'])} {c['st']}%nat {z(c['i0'])} {_groups(c['ev'])}"
+        return f"k_af {blit(c['pos'])} {c['st']}%nat {z(c['i0'])} {_pack_steps(c)}"
     if k == "rs":
-        return f"k_rs {c['st']}%nat {z(c['i0'])} {_groups(c['ev'])}"
+        return f"k_rs {c['st']}%nat {z(c['i0'])} {_pack_steps(c)}"
     if k == "ps":
-        return f"k_ps {c['st']}%nat {z(c['i0'])} {_groups(c['ev'])}"
+        return f"k_ps {c['st']}%nat {z(c['i0'])} {_pack_steps(c)}"
     if k == "sep":
-        return f"k_sep {z(c['i0'])} {_groups(c['ev'])}"
+        return f"k_sep {z(c['i0'])} {_pack_steps(c)}"
     if k == "stages":
         return f"k_stages {z(c['st'])}"
     if k == "posedge":
@@ -411,33 +454,36 @@ def nontrivial(c, obs):
         return True
     if k == "sep":
         return any(kind in (2, 3) for kind, _ in c["ev"])
-    n = len(c["ev"]) + 1
-    return len(set(obs[:n])) > 1
+    return len(set(_unpack_out(c, obs[_HDR[k]:], len(c["ev"]) + 1))) > 1
 
 
 def explain(c):
-    return ("model answer = output initially and after every step [kind, v] (kind 0 none, 1 output edge, 2 input edge, 3 both, "
-            "4 inactive edges; v driven in the same ctx.set), then for ps: input pulses, output cycles with o=1; last = monitor ok")
+    return ("answers = header + packed trace; header = [monitor ok] (ps: [input pulses, output cycles with o = 1, monitor ok]); "
+            "packed trace = chunks of <= 60 bits of the output codes (o + ooff on ob bits, first in the low bits; ff: ob = w+1, "
+            "ooff = 2^w; others ob = 1, ooff = 0), o read initially and after every step [kind, v] (kind 0 none, 1 output edge, "
+            "2 input edge, 3 both, 4 inactive edges; v driven in the same ctx.set)")
 
 
 def shrink(case, obs, model):
     """cut the step list after the first differing output; the model trace of a prefix is the prefix
-    of the model trace (the trailing counters are recomputed from it)."""
-    if case["k"] not in ("ff", "af", "rs", "ps"):
+    of the model trace (the counters are recomputed from it)."""
+    k = case["k"]
+    if k not in _HDR or len(obs) < _HDR[k] or len(model) < _HDR[k]:
         return case, obs, model
-    n = next((j for j, (a, b) in enumerate(zip(obs, model)) if a != b), None)
-    if n is None or n == 0 or n > len(case["ev"]):
+    total = len(case["ev"]) + 1
+    o_tr, m_tr = _unpack_out(case, obs[_HDR[k]:], total), _unpack_out(case, model[_HDR[k]:], total)
+    n = next((j for j, (a, b) in enumerate(zip(o_tr, m_tr)) if a != b), None)
+    if n is None or n == 0:
         return case, obs, model
     c2 = dict(case)
     c2["ev"] = case["ev"][:n]
-    m2 = list(model[:n + 1])
-    if case["k"] == "ps":
+    hdr = [1]
+    if k == "ps":
         cur, n_in, n_out = case["i0"] & 1, 0, 0
-        for (kind, v), o in zip(c2["ev"], m2[1:]):
+        for (kind, v), o in zip(c2["ev"], m_tr[1:n + 1]):
             if v is not None:
                 cur = v & 1
             n_in += int(kind in (2, 3) and cur == 1)
             n_out += int(kind in (1, 3) and o == 1)
-        m2 += [n_in, n_out]
-    m2.append(1)
-    return c2, run_impl(c2), m2
+        hdr = [n_in, n_out, 1]
+    return c2, run_impl(c2), hdr + _pack_out(case, m_tr[:n + 1])
